@@ -281,7 +281,12 @@ def json_shape(bv, world, t, depth=0):
                     elems = [json_shape(bv, world, e, depth + 1) for e in x[3]]
                     break
             return {"array": elems, "dynamic": not elems, "term": terms.render(bv, t[3][0], world, {})[:200] if not elems else None}
-        return {"value": kind.lower()}
+        out_ = {"value": kind.lower()}
+        if kind == "Bool" and t[3]:
+            cv_ = lib.term_const(bv.crate, strip(t[3][0]))
+            if cv_ in (0, 1):
+                out_["term"] = "true" if cv_ else "false"
+        return out_
     if t[0] == "call" and lib.norm(t[1]).split("::")[-1] in ("unwrap", "expect") and t[2]:
         inner = t[2][0]
         while inner[0] in ("ref", "deref"):
